@@ -13,7 +13,7 @@ def check_C16(chk):
     thorough = chk.tier == "thorough"
     rng = random.Random(chk.seed)
     proof_ok = C.proof_stage(chk, "C16")
-    flavours = ["default"] + (["memfd"] if thorough else [])
+    flavours = ["default", "inprocess"] + (["memfd"] if thorough else [])
     bins = build_all(chk, flavours)
     if not all(bins.values()):
         return
@@ -67,7 +67,7 @@ def check_C16(chk):
                         "liveness probes, not modelled)"]
     # undecodable messages inside whole-API programs (received directly, through a set, carrying endpoints and regions), against the Api model
     from . import props_prog as PP
-    af, ab = PP.api_stage(chk, "C16", bins, ["default"], 400 if thorough else 45, 60, seed_off=51, p_poison=0.3)
+    af, ab = PP.api_stage(chk, "C16", bins, [f for f in ("default", "inprocess") if f in bins and bins[f]], 400 if thorough else 45, 60, seed_off=51, p_poison=0.3)
     fails = fails + [None] * af
     bad = bad + [None] * ab
     # a message received from INSIDE another message's deserialisation, well-formed or not (among them: no attachments of its own, bytes
@@ -342,7 +342,7 @@ def check_C14(chk):
     thorough = chk.tier == "thorough"
     rng = random.Random(chk.seed)
     proof_ok = C.proof_stage(chk, "C14")
-    bins = build_all(chk, ["default", "inprocess"]) if False else build_all(chk, ["default"])
+    bins = build_all(chk, ["default", "inprocess"])
     if not all(bins.values()):
         return
     cases, got, fails, todo, bad, errors = script_stage(chk, rng, bins["default"], 5000 if thorough else 300, 5 if thorough else 3)
@@ -386,6 +386,20 @@ def check_C14(chk):
             fails.append((None, r, why))
             chk.failing_input(why, {"scenario": sname, "record": r}, key="c14res:%s" % sname)
     cov["refused_send_scenarios"] = sorted(rgot)
+    # the same on both transports with the destination sender kept alive: the embedded endpoints' channels are probed directly
+    for fl in ("default", "inprocess"):
+        if not bins.get(fl):
+            continue
+        precs, _, prc, perr = C.run_harness(bins[fl], "res", ["scen name=send_closed_probe n=5"], shim=False, timeout=120)
+        pr = next((r for r in precs if r.get("kind") == "scen" and r.get("name") == "send_closed_probe"), None)
+        why = None
+        if pr is None:
+            why = "scenario send_closed_probe did not complete on the %s build (rc=%s): %s" % (fl, prc, perr[-300:])
+        elif pr.get("notes"):
+            why = "%s build: %s" % (fl, pr["notes"][0])
+        if why:
+            fails.append((None, pr, why))
+            chk.failing_input(why, {"scenario": "send_closed_probe", "build": fl, "record": pr}, key="c14probe:%s" % fl)
     ncases, ntodo, nbad = nestrecv_stage(chk, rng, bins["default"], 400 if thorough else 60, fails)
     bad = bad + nbad
     cov["nested_receive_cases"] = len(ncases)
